@@ -27,6 +27,7 @@ import (
 	"os"
 	"strconv"
 	"strings"
+	"sync/atomic"
 	"testing"
 	"time"
 
@@ -207,7 +208,7 @@ func vC03Universe(r *rand.Rand) []string {
 
 var vC03ScopePool = []string{
 	"10.1.2.0/24", "10.1.0.0/16", "10.1.2.128/25", "10.1.3.0/24", "10.9.0.0/16", "10.0.0.0/8", "10.1.2.77/32",
-	"128.0.0.0/1", "0.0.0.0/1", "10.1.2.0/23",
+	"128.0.0.0/1", "0.0.0.0/1", "10.1.2.0/23", "10.1.0.0/24", "10.0.0.0/16", "10.1.0.0/28", "2001:db8::/48", "2001:db8::/64",
 	"2001:db8::/32", "2001:db8:1::/48", "2001:db8:1:2::/64", "2001:db9::/32", "a01:200::/24",
 }
 
@@ -294,6 +295,8 @@ type vC03Hist struct {
 	failIDs  map[string]uint64
 	cutIDs   map[uint64]bool
 	negUsed  bool
+	nextRefreshID atomic.Uint64
+	pol      [4]uint8
 	batteries int
 	target   []vC03Spec // specs the next lookups should probe (both sides of the latest forged placement)
 	raw      bool // the universe holds raw non-ASCII names
@@ -304,6 +307,7 @@ type vC03Hist struct {
 }
 
 type vC03Stored struct {
+	replaced bool
 	id       uint64
 	ident    vC03Spec
 	key      vC03Spec
@@ -923,10 +927,7 @@ func (h *vC03Hist) resolve(s vC03Spec, wireborn bool, client netip.Prefix, kind 
 				SourceNetmask: uint8(client.Bits()), Address: net.IP(client.Addr().AsSlice())})
 		}
 	}
-	var clientScope netip.Prefix
-	if client.IsValid() {
-		clientScope = client.Masked()
-	}
+	clientScope := h.clampClient(client)
 	if kind == 0 && scopeBits > 0 && !client.IsValid() {
 		scopeBits = 0
 	}
@@ -999,7 +1000,15 @@ func (h *vC03Hist) resolve(s vC03Spec, wireborn bool, client netip.Prefix, kind 
 		if kind == 0 {
 			sc := netip.Prefix{}
 			if clientScope.IsValid() && scopeBits > 0 && scopeBits <= clientScope.Addr().BitLen() {
-				sc, _ = clientScope.Addr().Prefix(min(scopeBits, clientScope.Bits()))
+				b := min(scopeBits, clientScope.Bits())
+				floor := int(h.pol[3])
+				if clientScope.Addr().Is4() {
+					floor = int(h.pol[2])
+				}
+				if b > floor {
+					b = floor
+				}
+				sc, _ = clientScope.Addr().Prefix(b)
 			}
 			key := vC03Spec{q: s.q, cd: s.cd, scope: sc}
 			if e, ok := h.c.positive.Get(h.keyOf(key)); ok {
@@ -1095,9 +1104,295 @@ func (h *vC03Hist) resolveHistory() {
 	}
 }
 
+// ---- background refresh: a hit inside the prefetch window queues a refresh whose answer replaces the entry
+
+type vC03RefreshSeen struct {
+	q     vC03Q
+	cd    bool
+	scope netip.Prefix // ECS source the refresh request carried (invalid: none)
+	id    uint64
+}
+
+type vC03PrefetchQueryer struct {
+	h    *vC03Hist
+	seen chan vC03RefreshSeen
+}
+
+// the sub-pipeline's stand-in: an authority that tailors by subnet.  It answers the question it is
+// asked, for the CD bit and the client subnet it is asked with, and says so in SCOPE.
+func (p *vC03PrefetchQueryer) Query(_ context.Context, req *dns.Msg) (*dns.Msg, error) {
+	q := req.Question[0]
+	id := p.h.nextRefreshID.Add(1) + 500000
+	seen := vC03RefreshSeen{q: vC03Q{name: q.Name, qtype: q.Qtype, qclass: q.Qclass}, cd: req.CheckingDisabled, id: id}
+	resp := new(dns.Msg)
+	resp.SetReply(req)
+	resp.RecursionAvailable = true
+	resp.Answer = []dns.RR{vC03Answer(seen.q, id)}
+	if opt := req.IsEdns0(); opt != nil {
+		for _, o := range opt.Option {
+			if sub, ok := o.(*dns.EDNS0_SUBNET); ok {
+				if a, ok2 := netip.AddrFromSlice(sub.Address); ok2 {
+					if a.Is4In6() {
+						a = a.Unmap()
+					}
+					seen.scope, _ = a.Prefix(int(sub.SourceNetmask))
+					ro := new(dns.OPT)
+					ro.Hdr.Name, ro.Hdr.Rrtype = ".", dns.TypeOPT
+					ro.SetUDPSize(1232)
+					ro.Option = []dns.EDNS0{&dns.EDNS0_SUBNET{Code: dns.EDNS0SUBNET, Family: sub.Family,
+						SourceNetmask: sub.SourceNetmask, SourceScope: sub.SourceNetmask, Address: sub.Address}}
+					resp.Extra = []dns.RR{ro}
+				}
+			}
+		}
+	}
+	p.seen <- seen
+	return resp, nil
+}
+
+func (h *vC03Hist) prefetchHistory() {
+	r := h.r
+	pq := &vC03PrefetchQueryer{h: h, seen: make(chan vC03RefreshSeen, 16)}
+	h.c.SetPrefetchQueryer(pq)
+	var specs []vC03Spec
+	for i := 0; i < 2+r.Intn(2); i++ {
+		s := h.randSpec()
+		if r.Intn(3) != 0 {
+			s.scope = netip.Prefix{}
+		}
+		id := h.setAnswer(s, s, "genuine")
+		h.stored = append(h.stored, vC03Stored{id: id, ident: s, key: s, keyHash: h.keyOf(s)})
+		specs = append(specs, s)
+	}
+	n := 5 + r.Intn(6)
+	for i := 0; i < n; i++ {
+		s := specs[r.Intn(len(specs))]
+		s.q.name = vC03MixCase(r, s.q.name)
+		if r.Intn(3) == 0 { // age the entry into its refresh window (only the stored instant moves)
+			if e, ok := h.c.positive.Get(h.keyOf(s)); ok && !e.prefetch.Load() {
+				e.stored = time.Now().Add(-e.ttl * 9 / 10)
+			}
+		}
+		// which entry will this request hit, and is a refresh due?
+		var due *CacheEntry
+		mode := []int{0, 1, 2, 2}[r.Intn(4)]
+		if !s.scope.IsValid() && mode == 1 {
+			mode = 2
+		}
+		before := len(h.ops)
+		h.serve(s, r.Intn(2) == 0, mode)
+		_ = before
+		// collect every refresh the request queued (at most one per entry): wait for the claim to clear
+		deadline := time.Now().Add(3 * time.Second)
+		for {
+			pending := false
+			for _, st := range h.stored {
+				if e := h.ptr[st.id]; e != nil && e.prefetch.Load() {
+					pending = true
+					due = e
+					if e.scoped() {
+						h.failf("a refresh was claimed for the scoped entry #%d", st.id)
+					}
+				}
+			}
+			if !pending {
+				break
+			}
+			if time.Now().After(deadline) {
+				h.incon = true
+				return
+			}
+			time.Sleep(200 * time.Microsecond)
+		}
+		_ = due
+		for len(pq.seen) > 0 {
+			seen := <-pq.seen
+			// the entry the refresh was for: the one whose question / partition the refresh request names
+			var old *vC03Stored
+			for j := len(h.stored) - 1; j >= 0; j-- {
+				st := &h.stored[j]
+				if vC03Lower(st.ident.q.name) == vC03Lower(seen.q.name) && st.ident.q.qtype == seen.q.qtype && st.ident.q.qclass == seen.q.qclass &&
+					st.ident.cd == seen.cd && !st.neg && !st.replaced && !normalizeKeyScope(st.ident.scope).IsValid() {
+					old = st
+					break
+				}
+			}
+			if old == nil {
+				h.failf("a refresh for %v cd=%v was issued but no stored entry has that question", seen.q, seen.cd)
+				continue
+			}
+			ok := false
+			if e, found := h.c.positive.Get(old.keyHash); found {
+				if got, ok2 := vC03AnswerID(e.storedMsg()); ok2 && got == seen.id {
+					ok = true
+					h.ptr[seen.id] = e
+				}
+			}
+			if seen.scope.IsValid() && !old.ident.scope.IsValid() {
+				h.failf("the refresh of the shared entry #%d went upstream with the client subnet %v", old.id, seen.scope)
+			}
+			h.ops = append(h.ops, fmt.Sprintf("OpRefresh %s %d %s %s %s %d %s", h.keysrc(old.key), old.id, seen.q.coq(), vC03Bool(seen.cd), vC03Scope(seen.scope), seen.id, vC03Bool(ok)))
+			sc := "-"
+			if seen.scope.IsValid() {
+				sc = seen.scope.String()
+			}
+			h.desc = append(h.desc, fmt.Sprintf("refresh of #%d key{%v}: upstream asked %v cd=%v ecs=%s answered #%d -> swapped=%v", old.id, old.key, seen.q, seen.cd, sc, seen.id, ok))
+			if ok {
+				old.replaced = true
+				h.stored = append(h.stored, vC03Stored{id: seen.id, ident: old.ident, key: old.key, keyHash: old.keyHash})
+			}
+		}
+	}
+	// probes from every audience after the refreshes
+	for _, s := range specs {
+		s.q.name = vC03MixCase(r, s.q.name)
+		h.serve(s, r.Intn(2) == 0, 0)
+		h.serve(s, r.Intn(2) == 0, 2)
+	}
+}
+
+// ---- the decoded-path chase (additionalAnswer) with sub-queries answered from the store
+
+type vC03StoreQueryer struct{ c *Cache }
+
+func (q vC03StoreQueryer) Query(_ context.Context, req *dns.Msg) (*dns.Msg, error) {
+	if m, ok := q.c.store.Get(req); ok {
+		return m, nil
+	}
+	return nil, middleware.ErrNoResponse
+}
+
+func (h *vC03Hist) serveMsgChase(s vC03Spec) {
+	req := vC03Req(s.q, s.cd)
+	if h.r.Intn(2) == 0 {
+		req.SetEdns0(1232, h.r.Intn(2) == 0)
+	}
+	reached := false
+	terminal := middleware.HandlerFunc(func(_ context.Context, _ *middleware.Chain) { reached = true })
+	writer := mock.NewWriter("udp", "192.0.2.7:53000")
+	ch := middleware.NewChain([]middleware.Handler{h.edns, h.c, terminal})
+	ch.Reset(writer, req)
+	ch.Next(context.Background())
+	var ids []uint64
+	if !reached && writer.Written() {
+		m := writer.Msg()
+		if m == nil || m.Rcode != dns.RcodeSuccess {
+			h.failf("msg-chase request %v answered %v", s, m)
+		} else {
+			ids = h.chainIDs(m)
+			if len(ids) > 0 {
+				h.hits++
+			}
+		}
+	} else if !reached {
+		h.failf("msg-chase request %v: nothing written and the next handler not reached", s)
+	}
+	var sid []string
+	for _, id := range ids {
+		sid = append(sid, strconv.FormatUint(id, 10))
+	}
+	h.ops = append(h.ops, fmt.Sprintf("OpServeMsgChase %s %s [%s]%%N", s.q.coq(), vC03Bool(s.cd), strings.Join(sid, ";")))
+	h.desc = append(h.desc, fmt.Sprintf("serve-chase[msg] %v cd=%v -> %v", s.q, s.cd, ids))
+}
+
+// ids of the stored responses whose records make up a reply: an alias record names its entry in
+// its target ("c<id>.…"), every other record carries its id in its RDATA
+func (h *vC03Hist) chainIDs(m *dns.Msg) []uint64 {
+	var ids []uint64
+	for _, rr := range m.Answer {
+		var id uint64
+		ok := false
+		switch x := rr.(type) {
+		case *dns.CNAME:
+			_ = x
+			continue // the alias entry's id rides in the TXT record next to it
+		default:
+			one := new(dns.Msg)
+			one.Answer = []dns.RR{rr}
+			id, ok = vC03AnswerID(one)
+		}
+		if !ok {
+			h.failf("reply holds an unrecognisable record %v", rr)
+			continue
+		}
+		if len(ids) == 0 || ids[len(ids)-1] != id {
+			ids = append(ids, id)
+		}
+	}
+	return ids
+}
+
+// alias chains whose hops exist in BOTH CD partitions (sometimes also under the other type) with
+// different stored responses, over ONE chain of names; the client of each partition must get its own
+// partition's chain.  Alias entries carry their id in a TXT record next to the CNAME.
+func (h *vC03Hist) msgChaseHistory(clientClass uint16) {
+	r := h.r
+	h.c.SetQueryer(vC03StoreQueryer{c: h.c})
+	tld := h.names[0]
+	for sc := 0; sc < 1+r.Intn(2); sc++ {
+		qtype := []uint16{1, 28}[r.Intn(2)]
+		qclass := clientClass
+		var start string
+		for i := 0; i < 8 && (start == "" || start == "."); i++ {
+			start = h.names[r.Intn(len(h.names))]
+		}
+		if start == "" || start == "." {
+			return
+		}
+		hops := 1 + r.Intn(3)
+		targets := make([]string, hops)
+		for i := range targets {
+			targets[i] = fmt.Sprintf("t%d-%d.%s", sc, i, tld)
+		}
+		type part struct {
+			cd bool
+			qt uint16
+			qc uint16
+		}
+		parts := []part{{false, qtype, qclass}, {true, qtype, qclass}}
+		if r.Intn(3) == 0 {
+			parts = append(parts, part{r.Intn(2) == 0, map[uint16]uint16{1: 28, 28: 1}[qtype], qclass})
+		}
+		// the same chain in the other class (the chase's sub-queries are class IN whatever the client asked)
+		other := map[uint16]uint16{1: 3, 3: 1}[qclass]
+		if clientClass != 1 || r.Intn(3) == 0 {
+			parts = append(parts, part{false, qtype, other}, part{true, qtype, other})
+		}
+		r.Shuffle(len(parts), func(i, j int) { parts[i], parts[j] = parts[j], parts[i] })
+		for _, pt := range parts {
+			depth := hops + 1 // hops aliases + the terminal
+			if r.Intn(4) == 0 {
+				depth = r.Intn(hops + 1) // a partition whose chain stops early
+			}
+			cur := start
+			for i := 0; i < hops && i < depth; i++ {
+				sp := vC03Spec{q: vC03Q{name: vC03MixCase(r, cur), qtype: pt.qt, qclass: pt.qc}, cd: pt.cd}
+				id := h.nextID
+				h.nextID++
+				h.setAliasTagged(sp, sp, vC03MixCase(r, targets[i]), id, true)
+				cur = targets[i]
+			}
+			if depth > hops {
+				sp := vC03Spec{q: vC03Q{name: vC03MixCase(r, cur), qtype: pt.qt, qclass: pt.qc}, cd: pt.cd}
+				h.setAnswer(sp, sp, "genuine")
+			}
+		}
+		for _, pt := range parts {
+			if pt.qc != clientClass {
+				continue
+			}
+			h.serveMsgChase(vC03Spec{q: vC03Q{name: vC03MixCase(r, start), qtype: pt.qt, qclass: pt.qc}, cd: pt.cd})
+		}
+	}
+}
+
 // ---- the cache-contained alias chase on the wire path
 
 func (h *vC03Hist) setAlias(key, ident vC03Spec, target string, id uint64) {
+	h.setAliasTagged(key, ident, target, id, false)
+}
+
+func (h *vC03Hist) setAliasTagged(key, ident vC03Spec, target string, id uint64, tag bool) {
 	k := h.keyOf(key)
 	req := vC03Req(ident.q, ident.cd)
 	resp := new(dns.Msg)
@@ -1105,6 +1400,9 @@ func (h *vC03Hist) setAlias(key, ident vC03Spec, target string, id uint64) {
 	resp.RecursionAvailable = true
 	resp.CheckingDisabled = ident.cd
 	resp.Answer = []dns.RR{&dns.CNAME{Hdr: dns.RR_Header{Name: ident.q.name, Rrtype: dns.TypeCNAME, Class: ident.q.qclass, Ttl: 3600}, Target: target}}
+	if tag {
+		resp.Answer = append(resp.Answer, &dns.TXT{Hdr: dns.RR_Header{Name: ident.q.name, Rrtype: dns.TypeTXT, Class: ident.q.qclass, Ttl: 3600}, Txt: []string{strconv.FormatUint(id, 10)}})
+	}
 	h.c.store.SetFromResponseWithKey(k, resp, time.Time{}, 0)
 	e, ok := h.c.positive.Get(k)
 	if !ok {
@@ -1562,29 +1860,80 @@ func (h *vC03Hist) cutWireAt(s vC03Spec) {
 	h.desc = append(h.desc, fmt.Sprintf("LookupNXDomainCutWire %q class %d -> %v #%d", s.q.name, s.q.qclass, ok, id))
 }
 
-func vC03Config() *config.Config {
+// the [ecs] policies histories run under: forward ceilings and min_scope per family
+var vC03Policies = [][4]uint8{{32, 128, 32, 128}, {32, 128, 32, 128}, {24, 56, 24, 56}, {24, 56, 16, 48}, {32, 128, 24, 56}, {16, 32, 32, 128}}
+
+func vC03Config(pol [4]uint8) *config.Config {
 	cfg := &config.Config{CacheSize: 1024, Expire: 300}
 	cfg.ECS.Enabled = true
-	cfg.ECS.ForwardV4Max = 32
-	cfg.ECS.ForwardV6Max = 128
-	cfg.ECS.MinScopeV4 = 32
-	cfg.ECS.MinScopeV6 = 128
+	cfg.ECS.ForwardV4Max = pol[0]
+	cfg.ECS.ForwardV6Max = pol[1]
+	cfg.ECS.MinScopeV4 = pol[2]
+	cfg.ECS.MinScopeV6 = pol[3]
 	return cfg
 }
 
+// what the edns layer leaves of a client's ECS source: clamped to the forward ceiling, masked
+func (h *vC03Hist) clampClient(client netip.Prefix) netip.Prefix {
+	if !client.IsValid() {
+		return client
+	}
+	bits := client.Bits()
+	max := int(h.pol[1])
+	if client.Addr().Is4() {
+		max = int(h.pol[0])
+	}
+	if bits > max {
+		bits = max
+	}
+	p, _ := client.Addr().Prefix(bits)
+	return p
+}
+
+func (h *vC03Hist) caseTerm() string {
+	return fmt.Sprintf("CaseHist (mk_pol %d %d %d %d) [%s]", h.pol[0], h.pol[1], h.pol[2], h.pol[3], strings.Join(h.ops, "; "))
+}
+
 func vC03History(r *rand.Rand) map[string]any {
-	cfg := vC03Config()
+	// 0,1: answers; 2: + failures; 3: + cuts; 4: wire alias chase; 5: write-back through the pipeline;
+	// 6: background refresh (prefetch); 7: decoded-path alias chase over a store-backed Queryer
+	flavour := r.Intn(8)
+	pol := vC03Policies[r.Intn(len(vC03Policies))]
+	cfg := vC03Config(pol)
+	if flavour == 6 {
+		cfg.Prefetch = 50
+	}
 	c := New(cfg)
 	defer c.Stop()
 	fixed := time.Unix(1_900_000_000, 0)
 	c.failure.now = func() time.Time { return fixed }
-	h := &vC03Hist{r: r, c: c, edns: ednsmw.New(cfg), names: vC03Universe(r), nextID: 1,
+	h := &vC03Hist{r: r, c: c, edns: ednsmw.New(cfg), names: vC03Universe(r), nextID: 1, pol: pol,
 		ptr: map[uint64]*CacheEntry{}, keys: map[uint64]string{}, failIDs: map[string]uint64{}, cutIDs: map[uint64]bool{}}
 	if c.ecsPolicy == nil {
 		return map[string]any{"inconclusive": true}
 	}
 	n := 8 + r.Intn(9)
-	flavour := r.Intn(6) // 0,1: answers; 2: + failures; 3: + cuts; 4: wire alias chase; 5: write-back through the pipeline
+	if flavour == 6 || flavour == 7 {
+		kind, fkey := "hist-prefetch", ""
+		if flavour == 6 {
+			h.prefetchHistory()
+		} else if r.Intn(6) == 0 {
+			// a class-CH client: the decoded-path chase asks its sub-queries in class IN (known finding)
+			kind, fkey = "hist-msgchase-class", "msg-chase-subquery-class-in"
+			h.msgChaseHistory(3)
+		} else {
+			kind = "hist-msgchase"
+			h.msgChaseHistory(1)
+		}
+		if h.incon {
+			return map[string]any{"inconclusive": true}
+		}
+		out := map[string]any{"k": kind, "coq": h.caseTerm(), "go_fail": h.fail, "nontrivial": h.hits > 0, "desc": h.desc}
+		if fkey != "" {
+			out["fkey"] = fkey
+		}
+		return out
+	}
 	if flavour == 5 {
 		h.resolveHistory()
 		if h.incon {
@@ -1592,7 +1941,7 @@ func vC03History(r *rand.Rand) map[string]any {
 		}
 		return map[string]any{
 			"k":          "hist-resolve",
-			"coq":        "CaseHist [" + strings.Join(h.ops, "; ") + "]",
+			"coq":        h.caseTerm(),
 			"go_fail":    h.fail,
 			"nontrivial": len(h.failIDs) > 0 || h.hits > 0,
 			"desc":       h.desc,
@@ -1607,7 +1956,7 @@ func vC03History(r *rand.Rand) map[string]any {
 		}
 		return map[string]any{
 			"k":          "hist-chase",
-			"coq":        "CaseHist [" + strings.Join(h.ops, "; ") + "]",
+			"coq":        h.caseTerm(),
 			"go_fail":    h.fail,
 			"nontrivial": h.hits > 0,
 			"desc":       h.desc,
@@ -1661,7 +2010,7 @@ func vC03History(r *rand.Rand) map[string]any {
 	k := []string{"hist-answers", "hist-answers", "hist-failures", "hist-cuts", "hist-chase"}[flavour]
 	return map[string]any{
 		"k":          k,
-		"coq":        "CaseHist [" + strings.Join(h.ops, "; ") + "]",
+		"coq":        h.caseTerm(),
 		"go_fail":    h.fail,
 		"nontrivial": h.forged > 0 && h.hits > 0,
 		"desc":       h.desc,
